@@ -60,6 +60,53 @@ func c06KeyWithExp(bits, exp int) *rsa.PrivateKey {
 	return k
 }
 
+// c06BigKey: device keys larger than any fixture key, as multi-prime RSA over the fixture primes (5120 = 2x2048 + 2x512,
+// 6144 = 2x2048 + 2x1024, 8192 = 2x2048 + 2x1536 + 2x512 bits) - legal RSA public keys; the harness signs by CRT over all primes.
+var c06BigSizes = map[int][]int{5120: {4096, 1024}, 6144: {4096, 2048}, 8192: {4096, 3072, 1024}}
+
+func c06BigKey(bits int) *rsa.PrivateKey {
+	id := fmt.Sprint("big", bits)
+	if k, ok := c06ExpKeys[id]; ok {
+		return k
+	}
+	n, lambda, one := big.NewInt(1), big.NewInt(1), big.NewInt(1)
+	var primes []*big.Int
+	for _, b := range c06BigSizes[bits] {
+		for _, p := range fix.RSA(b).Primes {
+			primes = append(primes, p)
+			n.Mul(n, p)
+			lambda.Mul(lambda, new(big.Int).Sub(p, one))
+		}
+	}
+	k := &rsa.PrivateKey{PublicKey: rsa.PublicKey{N: n, E: 65537}, D: new(big.Int).ModInverse(big.NewInt(65537), lambda), Primes: primes}
+	if k.D == nil || n.BitLen() > bits || n.BitLen() < bits-3 {
+		panic(fmt.Sprintf("harness: cannot build a %d-bit multi-prime key (got %d bits)", bits, n.BitLen()))
+	}
+	c06ExpKeys[id] = k
+	return k
+}
+
+// c06SignRawMulti computes em^d mod N by CRT over any number of primes (Garner).
+func c06SignRawMulti(key *rsa.PrivateKey, em []byte) []byte {
+	c, one := new(big.Int).SetBytes(em), big.NewInt(1)
+	x, m := new(big.Int), big.NewInt(1)
+	for i, p := range key.Primes {
+		mi := new(big.Int).Exp(new(big.Int).Mod(c, p), new(big.Int).Mod(key.D, new(big.Int).Sub(p, one)), p)
+		if i == 0 {
+			x.Set(mi)
+		} else {
+			t := new(big.Int).Sub(mi, x)
+			t.Mul(t, new(big.Int).ModInverse(new(big.Int).Mod(m, p), p))
+			t.Mod(t, p)
+			x.Add(x, t.Mul(t, m))
+		}
+		m.Mul(m, p)
+	}
+	out := make([]byte, (key.N.BitLen()+7)/8)
+	x.FillBytes(out)
+	return out
+}
+
 var c06Hashes = []crypto.Hash{crypto.SHA1, crypto.SHA256, crypto.SHA384, crypto.SHA512}
 
 var c06DigestInfo = map[crypto.Hash][2][]byte{ // [with NULL, without NULL]
@@ -205,6 +252,9 @@ func c06Build() *c06World {
 			}
 		}
 	}
+	for bits := range c06BigSizes {
+		mk(fmt.Sprint(bits), &c06BigKey(bits).PublicKey)
+	}
 	mk("p256", fix.EC(256).Public())
 	mk("ed25519", fix.Ed(0).Public())
 	return w
@@ -227,11 +277,15 @@ func c06Run(c *ev.Ctx, k c06Case) {
 	tbs, _ := hex.DecodeString(k.TBS)
 	if k.Sig == "" && k.EM != "" && k.Bits != 0 {
 		em, _ := hex.DecodeString(k.EM)
-		key := fix.RSA(k.Bits)
-		if k.Exp != 0 {
-			key = c06KeyWithExp(k.Bits, k.Exp)
+		if _, big := c06BigSizes[k.Bits]; big {
+			k.Sig = hex.EncodeToString(c06SignRawMulti(c06BigKey(k.Bits), em))
+		} else {
+			key := fix.RSA(k.Bits)
+			if k.Exp != 0 {
+				key = c06KeyWithExp(k.Bits, k.Exp)
+			}
+			k.Sig = hex.EncodeToString(c06SignRaw(key, em))
 		}
-		k.Sig = hex.EncodeToString(c06SignRaw(key, em))
 	}
 	sig, _ := hex.DecodeString(k.Sig)
 	slot := &x509.Certificate{SignatureAlgorithm: x509.SignatureAlgorithm(k.Label), RawTBSCertificate: tbs, Signature: sig}
@@ -329,7 +383,7 @@ func c06Lifetime(c *ev.Ctx, tbs []byte) {
 }
 
 func checkC06(c *ev.Ctx) {
-	c.Rule("the harness owns the device RSA key, so for any target encoded message EM it computes sig = EM^d mod N: device key sizes (quick 1024,2048; thorough +1032,1536,3072,4096) x hash{SHA-1,256,384,512} x identifier form{NULL,no NULL} x every byte position of EM x 7 replacement values; structural variants (EVERY padding length 0..full-1 with the freed bytes after the digest / between identifier and digest / before the identifier (2048-bit quick: the 12 shortest, 12 longest and every 16th), shortened/short padding, 00 inside padding, missing separator, shifted T, foreign identifier, wrong digest, block types 00/02, sig+N); single-bit flips of signature and body (quick: 1024-bit key; thorough: 2048 too); every signature-algorithm label 0..16,99,-1 x EM hash; chain relations {pool root (2 roots), foreign CA, self-signed, expired, not yet valid, missing intermediate}; device key types {RSA, P-256, Ed25519} incl. slot certificates that are validly signed by the (CA-flagged) device key with ECDSA, Ed25519 or RSA-PSS; RSA public exponents {3,5,17,257,65539} (those invertible for the fixture primes) on the 1024-bit modulus (thorough: 2048 too), interleaved with the 65537 cases; one long-lived Attestor used before and after a device certificate's expiry / start of validity (real time, 5.5 s). 192 ordered pairs on one goroutine (6 predecessor kinds incl. non-RSA device keys x 4 hashes x {valid, signed over previous body || body}). Oracle: independent predicate on sig^e mod N. non-trivial = accepted attestation; distinct by (size,label,chain,variant)")
+	c.Rule("the harness owns the device RSA key, so for any target encoded message EM it computes sig = EM^d mod N: device key sizes (quick 1024,2048 and a 6144-bit multi-prime key; thorough +1032,1536,3072,4096 and 5120 / 8192-bit multi-prime keys; big keys: every 8th byte position and the neighbourhood of every multiple of 256 quick, every position thorough) x hash{SHA-1,256,384,512} x identifier form{NULL,no NULL} x every byte position of EM x 7 replacement values; structural variants (EVERY padding length 0..full-1 with the freed bytes after the digest / between identifier and digest / before the identifier (2048-bit quick: the 12 shortest, 12 longest and every 16th), shortened/short padding, 00 inside padding, missing separator, shifted T, foreign identifier, wrong digest, block types 00/02, sig+N); single-bit flips of signature and body (quick: 1024-bit key; thorough: 2048 too); every signature-algorithm label 0..16,99,-1 x EM hash; chain relations {pool root (2 roots), foreign CA, self-signed, expired, not yet valid, missing intermediate}; device key types {RSA, P-256, Ed25519} incl. slot certificates that are validly signed by the (CA-flagged) device key with ECDSA, Ed25519 or RSA-PSS; RSA public exponents {3,5,17,257,65539} (those invertible for the fixture primes) on the 1024-bit modulus (thorough: 2048 too), interleaved with the 65537 cases; one long-lived Attestor used before and after a device certificate's expiry / start of validity (real time, 5.5 s). 192 ordered pairs on one goroutine (6 predecessor kinds incl. non-RSA device keys x 4 hashes x {valid, signed over previous body || body}). Oracle: independent predicate on sig^e mod N. non-trivial = accepted attestation; distinct by (size,label,chain,variant)")
 	c.Assume("crypto/x509 chain building is trusted", "modular exponentiation by math/big")
 	t0 := time.Now()
 	c06W = c06Build()
@@ -488,6 +542,55 @@ func checkC06(c *ev.Ctx) {
 				// chains
 				for _, ch := range []string{"otherca", "selfsigned", "expired", "notyet", "missing-intermediate"} {
 					add(bits, labelOf[h], ch, base, "chain "+ch)
+				}
+			}
+		}
+	}
+	// device keys beyond 4096 bits (padding longer than 512 bytes): valid messages, one byte replaced at every 8th position
+	// and around every multiple of 256 (thorough: every position), short padding with filler at sparse lengths
+	{
+		bigs := []int{6144}
+		if c.Thorough() {
+			bigs = []int{5120, 6144, 8192}
+		}
+		for _, bits := range bigs {
+			k := (c06BigKey(bits).N.BitLen() + 7) / 8
+			hs := []crypto.Hash{crypto.SHA256}
+			if c.Thorough() {
+				hs = []crypto.Hash{crypto.SHA256, crypto.SHA1, crypto.SHA512}
+			}
+			for _, h := range hs {
+				for form := 0; form < 2; form++ {
+					if form == 1 && !c.Thorough() {
+						continue
+					}
+					base := c06EM(k, h, form, tbs)
+					add(bits, labelOf[h], "root", base, fmt.Sprintf("valid %v/form%d big key", h, form))
+					for pos := 0; pos < k; pos++ {
+						if !c.Thorough() && pos%8 != 0 && pos%256 > 2 && pos%256 < 254 && pos > 12 && pos < k-len(c06DigestInfo[h][form])-h.Size()-4 {
+							continue
+						}
+						for _, v := range []byte{0x00, 0xfe} {
+							if base[pos] == v || (v == 0xfe && !c.Thorough() && pos%64 != 0) {
+								continue
+							}
+							em := append([]byte{}, base...)
+							em[pos] = v
+							add(bits, labelOf[h], "root", em, "byte-replaced big key")
+						}
+					}
+					id, dg := c06DigestInfo[h][form], c06Digest(h, tbs)
+					full := k - 3 - len(id) - len(dg)
+					for _, ps := range []int{0, 7, 8, 9, 255, 256, 511, 512, 513, full - 513, full - 512, full - 1} {
+						if ps < 0 || ps >= full {
+							continue
+						}
+						head := append(append([]byte{0, 1}, bytes.Repeat([]byte{0xff}, ps)...), 0)
+						g := bytes.Repeat([]byte{0xa5}, full-ps)
+						add(bits, labelOf[h], "root", bytes.Join([][]byte{head, id, dg, g}, nil), "short-padding:filler-after-digest big key")
+						add(bits, labelOf[h], "root", bytes.Join([][]byte{head, id, g, dg}, nil), "short-padding:filler-between-identifier-and-digest big key")
+						add(bits, labelOf[h], "root", bytes.Join([][]byte{head, g, id, dg}, nil), "short-padding:filler-before-identifier big key")
+					}
 				}
 			}
 		}
